@@ -253,13 +253,18 @@ def _generate(ctx):
                 cases.append(c)
 
     w = 4
-    ntr = ctx.pick(360, 3000)
+    ntr = ctx.pick(320, 3000)
     take(ctx.tlc("Names", cfg="NamesGen.cfg", workers=w, simulate=ntr, depth=80, timeout=1500,
                  label="Names generation (simulate, 6 glyphs)"), "generation")
     # a smaller alphabet makes collisions between given names, glyph-list names and ligature names frequent
     take(ctx.tlc("Names", cfg="NamesG2.cfg", workers=w, simulate=ctx.pick(160, 1500), depth=80, timeout=1500,
                  files={"NamesG2.cfg": _cfg("NamesGen.cfg", Codes="{105, 106, 307}", MaxN="5", MaxRules="3")},
                  label="Names generation (simulate, i/j/ij alphabet)"), "generation (small alphabet)")
+    # few rule types and glyphs: rules often share a subtable and compete for one target or form chains
+    take(ctx.tlc("Names", cfg="NamesG5.cfg", workers=w, simulate=ctx.pick(120, 1000), depth=80, timeout=1500,
+                 files={"NamesG5.cfg": _cfg("NamesGen.cfg", Codes="{65}", MaxN="4", MaxRules="3", RuleTypes="{1, 3}",
+                                            PoolSel='"tiny"')},
+                 label="Names generation (simulate, shared subtables)"), "generation (shared subtables)")
     if not ctx.quick():
         take(ctx.tlc("Names", cfg="NamesG3.cfg", workers=w, simulate=400, depth=80, timeout=1500,
                      files={"NamesG3.cfg": _cfg("NamesGen.cfg", Codes="{102, 105, 64257}", MaxN="4", MaxRules="2")},
